@@ -709,8 +709,14 @@ type foundCase struct {
 }
 
 func TestCheck(t *testing.T) {
+	if scn := os.Getenv("VERIF_C20_CHILD"); scn != "" {
+		crashChild20(scn)
+	}
 	r := runner.Start("C20", "exploration")
 	deadline := r.Deadline(90*time.Second, 10*time.Minute)
+	if runner.ReplayPath() == "" {
+		crashPart20(r)
+	}
 
 	fx, err := newFixture(runner.Scratch())
 	if err != nil {
